@@ -214,7 +214,11 @@ class MetaStruct(type):
                 if len(args) == 1:  # is a dict or xobj
                     arg = args[0]
                     info.value = arg
-                    if isinstance(arg, dict):
+                    if isinstance(arg, dict) or (
+                        isinstance(arg, cls) and cls._has_refs
+                    ):
+                        # (a struct holding references is rebuilt field by
+                        # field: its layout is planned from the values too)
                         offsets = {}  # offset of dynamic data
                         extra = {}
                         offset = d_fields[
